@@ -21,9 +21,29 @@ from common import q, lst, natlit, zlit, blit
 
 IMPORTS = "From Verif Require Import model.Base model.SearcherData.\nOpen Scope Z_scope.\n"
 PRELUDE = r"""
-Definition c14_case := (config * list (event * snapshot))%type.
-Definition chk_case (c : c14_case) : bool := first_diff (fst c) init (snd c) 0 =? -1.
-Definition diag_case (c : c14_case) : Z := first_diff (fst c) init (snd c) 0.
+(* driver events: a tuner event of the model, or a LATE report of a trial that is not running (model functions
+   on_trial_result + on_trial_remove applied directly; see c14_late_report_ignored) *)
+Inductive dev := Ev (e : event) | Late (t r : Z) (v : Q).
+Fixpoint first_diff' (cfg : config) (st : state) (evs : list (dev * snapshot)) (i : Z) : Z :=
+  match evs with
+  | [] => -1
+  | (Ev e, sn) :: rest =>
+      if negb (legal_b cfg st e) then -1000 - i
+      else match step cfg st e with
+           | Error _ => -2 - i
+           | Ok (st', d) => if snap_ok st' d sn then first_diff' cfg st' rest (i + 1) else i
+           end
+  | (Late t r v, sn) :: rest =>
+      match on_trial_result cfg st t r v true with
+      | Error _ => -2 - i
+      | Ok (st1, d) =>
+          let st' := match d with CONTINUE => st1 | _ => on_trial_remove st1 t end in
+          if snap_ok st' (Some d) sn then first_diff' cfg st' rest (i + 1) else i
+      end
+  end.
+Definition c14_case := (config * list (dev * snapshot))%type.
+Definition chk_case (c : c14_case) : bool := first_diff' (fst c) init (snd c) 0 =? -1.
+Definition diag_case (c : c14_case) : Z := first_diff' (fst c) init (snd c) 0.
 """
 
 POLICY = {"rungs": "Rungs", "all": "AllData", "rungs_and_last": "RungsAndLast"}
@@ -79,6 +99,8 @@ def gen_spec(rng, fits=False):
         p_fail_after_decision=rng.choice([0.0, 0.0, 0.2]),
         seed=rng.randrange(2 ** 31),
         num_init_random=3 if fits else 10000,
+        p_late=rng.choice([0.0, 0.0, 0.1, 0.2]),
+        map_reward=rng.choice([None, None, "1_minus_x", "minus_x", "2_minus_x", "obj2", "obj0.5"]),
     )
     if fits:
         spec["nops"] = rng.randint(12, 20)
@@ -104,6 +126,13 @@ def make_scheduler(spec):
         extra_opts["allow_duplicates"] = True
     if spec.get("max_size"):
         extra_opts["max_size_data_for_model"] = spec["max_size"]
+    mr = spec.get("map_reward")
+    if mr is not None:
+        if mr.startswith("obj"):
+            from syne_tune.optimizer.schedulers.searchers.gp_searcher_utils import map_reward_const_minus_x
+            extra_opts["map_reward"] = map_reward_const_minus_x(const=float(mr[3:]))     # a MapReward object
+        else:
+            extra_opts["map_reward"] = mr
     sink = io.StringIO()
     with contextlib.redirect_stdout(sink), contextlib.redirect_stderr(sink):
         sch = HyperbandScheduler(
@@ -261,7 +290,8 @@ def run_case(spec, ops=None):
     t0 = datetime.datetime(2020, 1, 1)
 
     def crit(v):
-        return 1.0 - v if spec["mode"] == "max" else v
+        # mode min: the metric itself whatever map_reward says; mode max: map_reward(metric) = const - metric
+        return reward_const(spec) - v if spec["mode"] == "max" else v
 
     def metric_value():
         if spec["mode"] == "max" or rng.random() < 0.5:
@@ -275,6 +305,11 @@ def run_case(spec, ops=None):
             cands += ["suggest"] * 2
         if running:
             cands += ["report"] * 6
+        idle = [t for t, l in lives.items() if l.status != "running" and l.pos < max_t]
+        if idle and spec.get("p_late", 0) and rng.random() < spec["p_late"]:
+            return ["late", rng.choice(idle), metric_value()]
+        if not cands:
+            return ["suggest", rng.randrange(nb)]
         op = rng.choice(cands)
         if op == "suggest":
             return ["suggest", rng.randrange(nb)]
@@ -314,7 +349,7 @@ def run_case(spec, ops=None):
                     sch.on_trial_add(trial)
                     b = min(op[1], nb - 1)
                     lives[tid] = Life(b, rung_levels[b] if b < len(rung_levels) else max_t)
-                    events.append("Start %s %s" % (zlit(tid), natlit(b)))
+                    events.append("Ev (Start %s %s)" % (zlit(tid), natlit(b)))
                 else:
                     tid = int(sug.checkpoint_trial_id)
                     l = lives[tid]
@@ -323,7 +358,7 @@ def run_case(spec, ops=None):
                     l.resume_from = l.last_new if l.last_new is not None else 0
                     l.pos = l.resume_from if spec["ckpt"] else 0
                     l.status = "running"
-                    events.append("Resume %s %s" % (zlit(tid), natlit(min(op[1], nb - 1))))
+                    events.append("Ev (Resume %s %s)" % (zlit(tid), natlit(min(op[1], nb - 1))))
             elif op[0] == "report":
                 tid, v = op[1], op[2]
                 l = lives[tid]
@@ -339,7 +374,16 @@ def run_case(spec, ops=None):
                     l.status = "stopped" if decision == "STOP" else "paused"
                     if ops is None and rng.random() < spec["p_fail_after_decision"]:
                         pending_extra.append(["fail", tid])
-                events.append("Report %s %s %s %s" % (zlit(tid), zlit(r), q(v), blit(decision == "CONTINUE")))
+                events.append("Ev (Report %s %s %s %s)" % (zlit(tid), zlit(r), q(v), blit(decision == "CONTINUE")))
+            elif op[0] == "late":
+                # a report of a trial that is not running any more (late report after STOP / PAUSE / failure / completion)
+                tid, v = op[1], op[2]
+                l = lives[tid]
+                r = l.pos + 1
+                decision = sch.on_trial_result(trials[tid], {"m": v, "epoch": r})
+                if decision != "CONTINUE":
+                    sch.on_trial_remove(trials[tid])
+                events.append("Late %s %s %s" % (zlit(tid), zlit(r), q(v)))
             elif op[0] == "complete":
                 tid = op[1]
                 l = lives[tid]
@@ -347,12 +391,12 @@ def run_case(spec, ops=None):
                 sch.on_trial_complete(trials[tid], {"m": v, "epoch": r})
                 l.status = "completed"
                 l.completed_at = r
-                events.append("Complete %s %s %s" % (zlit(tid), zlit(r), q(v)))
+                events.append("Ev (Complete %s %s %s)" % (zlit(tid), zlit(r), q(v)))
             elif op[0] == "fail":
                 tid = op[1]
                 sch.on_trial_error(trials[tid])
                 lives[tid].status = "failed"
-                events.append("Fail %s" % zlit(tid))
+                events.append("Ev (Fail %s)" % zlit(tid))
         except Exception as e:  # the scheduler raised: recorded, the case ends here
             exc = "%s: %s" % (type(e).__name__, str(e)[:200])
             events.append(None)
@@ -587,10 +631,20 @@ def run_sync_case(spec):
                 resumed_from_scratch=(not spec["ckpt"]) and any(x["prev"] > 0 for x in job.values()))
 
 
+def reward_const(spec):
+    mr = spec.get("map_reward")
+    if mr is None or mr == "1_minus_x":
+        return 1.0
+    if mr == "minus_x":
+        return 0.0
+    return float(mr[3:]) if mr.startswith("obj") else float(mr[:-len("_minus_x")])
+
+
 def coq_config(spec, rung_levels, max_t):
-    return ("{| rung_levels := %s; max_t := %d; pol := %s; myopic := %s; sty := %s; maximize := %s |}" % (
+    return ("{| rung_levels := %s; max_t := %d; pol := %s; myopic := %s; sty := %s; maximize := %s; reward_const := %s |}" % (
         lst([str(x) for x in rung_levels]), max_t, POLICY[spec["searcher_data"]], blit(spec["myopic"]),
-        "Stopping" if spec["type"] == "stopping" else "Promotion", blit(spec["mode"] == "max")))   # dyhpo: promotion-type
+        "Stopping" if spec["type"] == "stopping" else "Promotion", blit(spec["mode"] == "max"),    # dyhpo: promotion-type
+        q(reward_const(spec))))
 
 
 def coq_snapshot(sn):
@@ -645,7 +699,7 @@ def run(ctx, replay=None):
     for spec, ops in todo:
         res = run_case(spec, ops)
         case = dict(spec=spec, ops=res["ops"])
-        kinds = [e.split()[0] for e in res["events"] if e]
+        kinds = [(e.split()[1].lstrip("(") if e.startswith("Ev") else "Late") for e in res["events"] if e]
         decisions = [s[3] for s in res["snaps"]]
         nontriv = (any(d in ("STOP", "PAUSE") for d in decisions) and
                    any(k in ("Resume", "Fail", "Complete") for k in kinds)) or \
